@@ -50,7 +50,13 @@ fn run(lens: &[usize], ending: &str, cap: usize) -> Option<String> {
         src.extend_from_slice(&d);
         steps.push(Step::Data(d));
     }
-    steps.push(if ending == "fail" { Step::Fail } else { Step::Eof });
+    use std::io::ErrorKind as K;
+    steps.push(match ending {
+        "fail" => Step::Fail,
+        "fail-unexpectedeof" => Step::FailKind(K::UnexpectedEof), "fail-brokenpipe" => Step::FailKind(K::BrokenPipe), "fail-timedout" => Step::FailKind(K::TimedOut),
+        "fail-connectionreset" => Step::FailKind(K::ConnectionReset), "fail-wouldblock" => Step::FailKind(K::WouldBlock), "fail-invaliddata" => Step::FailKind(K::InvalidData),
+        "fail-writezero" => Step::FailKind(K::WriteZero), "fail-notfound" => Step::FailKind(K::NotFound), "fail-permissiondenied" => Step::FailKind(K::PermissionDenied),
+        _ => Step::Eof });
     let mut w = RecWriter::new();
     w.max_per_call = cap;
     let r = std::panic::catch_unwind(std::panic::AssertUnwindSafe(|| {
@@ -64,7 +70,7 @@ fn run(lens: &[usize], ending: &str, cap: usize) -> Option<String> {
         Err(e) => Some(format!("{desc} expected=valid-chunked-stream actual=invalid({e}) result={res}")),
         Ok((payload, complete, nchunks)) => {
             if payload != src { return Some(format!("{desc} expected=payload-equals-source actual=differs result={res}")); }
-            if ending == "fail" && (complete || res != "ReaderErr") {
+            if ending.starts_with("fail") && (complete || res != "ReaderErr") {
                 return Some(format!("{desc} expected=ReaderErr-without-terminating-chunk actual=result={res},terminated={complete}"));
             }
             if ending == "eof" && (!complete || res != format!("Ok({})", src.len() + 3)) {
@@ -84,7 +90,7 @@ fn main() {
         let w = args[2..].join(" ");
         let inside = w.split("lens=[").nth(1).and_then(|s| s.split(']').next()).unwrap_or("");
         let lens: Vec<usize> = inside.split(',').filter_map(|s| s.trim().parse().ok()).collect();
-        let ending = if w.contains("ending=fail") { "fail" } else { "eof" };
+        let ending = w.split("ending=").nth(1).and_then(|s| s.split(' ').next()).unwrap_or("eof");
         let cap: usize = w.split("write_cap=").nth(1).and_then(|s| s.split(' ').next()).and_then(|s| s.parse().ok()).unwrap_or(usize::MAX);
         match run(&lens, ending, cap) {
             Some(m) => { println!("WITNESS {m}"); std::process::exit(1) }
@@ -108,6 +114,13 @@ fn main() {
         let k = rng.below(5) as usize;
         let ls: Vec<usize> = (0..k).map(|_| match rng.below(4) { 0 => 1 + rng.below(20) as usize, 1 => 250 + rng.below(12) as usize, 2 => 4090 + rng.below(12) as usize, _ => 1 + rng.below(66000) as usize }).collect();
         for ending in ["eof", "fail"] {
+            n += 1;
+            if let Some(m) = run(&ls, ending, usize::MAX) { if found.len() < 5 { found.push(m) } }
+        }
+    }
+    // a source error of any kind ends the output without the terminating chunk
+    for ending in ["fail-unexpectedeof", "fail-brokenpipe", "fail-timedout", "fail-connectionreset", "fail-wouldblock", "fail-invaliddata", "fail-writezero", "fail-notfound", "fail-permissiondenied"] {
+        for ls in [vec![], vec![1], vec![16, 1], vec![300, 4096, 7], vec![65528, 2]] {
             n += 1;
             if let Some(m) = run(&ls, ending, usize::MAX) { if found.len() < 5 { found.push(m) } }
         }
